@@ -724,6 +724,6 @@ class tcp (packet_base):
     elif ip_ver == 6:
       ph = self.prev.srcip.raw + self.prev.dstip.raw
       ph += struct.pack('!IHBB', payload_len, 0, 0,
-                        self.prev.next_header_type)
+                        self.prev.payload_type)
 
       return checksum(ph + payload, 0, 28)
